@@ -582,6 +582,48 @@ func TestResultObjectsSurviveLaterParses(t *testing.T) {
 	})
 }
 
+// TestManyCallsLeaveNothingBehind: hundreds of earlier calls with expensive inputs (long repetition ranges, large
+// classes, many groups; parsed only) and then the pool: every result must still be that of an isolated run. A counter,
+// a budget or a table that earlier calls fill belongs to the process, not to the input.
+func TestManyCallsLeaveNothingBehind(t *testing.T) {
+	rec.Begin(t)
+	rec.Rule(rule + ruleMore)
+	if rec.Shard() != 0 {
+		t.Skip("seed independent: shard 0 only")
+	}
+	base, err := isolated()
+	if err != nil {
+		t.Fatalf("harness: %v", err)
+	}
+	bulk := []string{`[a-z]{600}x{300,}`, `(ab|cd){200}`, `[0-9]{1,400}`, `\w{500}`, `a{1000}`, `([a-f]{20}){20}`, `[^a]{300}`, `(a|b|c|d|e|f|g|h){150,}`, `\d{100,700}`, `x{0,900}y`}
+	calls := 0
+	for round := 0; round < 12; round++ {
+		for _, p := range bulk {
+			_ = rec.Guard(func() {
+				_, _ = nfa.Parse(p)
+				_, _ = rast.Parse(p)
+			})
+			calls += 2
+		}
+	}
+	rec.Count("earlier_calls_before_the_pool", calls)
+	// patterns first: nothing that processing a specification may reset has happened yet
+	order := []int{}
+	for i := len(specPool); i < poolSize(); i++ {
+		order = append(order, i)
+	}
+	for i := 0; i < firstBig; i++ {
+		order = append(order, i)
+	}
+	for _, i := range order {
+		got := process(i)
+		rec.Case(fmt.Sprintf("after-bulk:%d", i), true, "after_many_calls")
+		if got != base[i] {
+			rec.Fail(t, "bulk", map[string]any{"item": i}, "after %d earlier calls in the same process (long repetition ranges, large classes, many groups), pool item %d gives a different result than alone\n--- item:\n%s\n--- isolated:\n%s--- here:\n%s", calls, i, head(itemText(i)), base[i], got)
+		}
+	}
+}
+
 type roundResult struct {
 	Plans   [][]int    `json:"plans"`
 	Results [][]string `json:"results"`
